@@ -1160,6 +1160,15 @@ def _slice_dim(d, start, stop):
 
 
 # ------------------------------------------------------------------------------------------------
+def _num_index(i):
+    """a z3 integer numeral (possibly after simplification) as a Python int; anything else unchanged"""
+    if z3.is_expr(i):
+        v = i if z3.is_int_value(i) else z3.simplify(i)
+        if z3.is_int_value(v):
+            return v.as_long()
+    return i
+
+
 def lift(x, dtype=None):
     """anything array-like -> SArray"""
     if isinstance(x, SArray):
@@ -1179,6 +1188,7 @@ def lift(x, dtype=None):
         kind = "int" if arr.dtype.kind in "iub" else "real"
 
         def elem(idx):
+            idx = [_num_index(i) for i in idx]
             if all(not is_z3(i) for i in idx):
                 v = arr[tuple(int(i) for i in idx)]
                 return int(v) if kind == "int" else (int(v) if float(v).is_integer() else float(v))
